@@ -24,9 +24,9 @@ func init() {
 		Required:      []string{"identity:abs", "identity:compose", "identity:wrap", "identity:truth", "shape:absoluteQuery", "shape:unionQuery", "shape:booleanQuery"},
 		Families: []Family{
 			witnessFamily("C13"),
-			{Name: "abs", N: tierN(10000, 120000), Run: c13Abs},
-			{Name: "compose", N: tierN(10000, 120000), Run: c13Compose},
-			{Name: "wrap", N: tierN(80000, 1000000), Run: c13Wrap},
+			{Name: "abs", N: tierN(10000, 400000), Run: c13Abs},
+			{Name: "compose", N: tierN(10000, 400000), Run: c13Compose},
+			{Name: "wrap", N: tierN(80000, 4000000), Run: c13Wrap},
 		},
 	})
 }
